@@ -9,13 +9,18 @@ from ..core import unhx
 THEOREMS = ['interval_exact', 'inverted_is_empty', 'filter_eq_delete', 'innermost_wins', 'keywords', 'summary_selects_day', 'summary_date_selects_day', 'day_count_advances', 'yesterday_is_previous_day', 'parsed_date_is_calendar_day', 'instants_order_is_calendar_order', 'period_is_calendar_interval', 'day_number_reads_back', 'summary_date_is_that_day']
 LEVEL = 'proof'
 RULE = ('logs with days in any order and repeated dates x every (begin, end) over a 5-day window incl. absent / equal / inverted / outside x '
-        '{reg, bal, csv log, print, report totals / quantity / unresolved} x flag position {global, sub-command, both with different values, one bound on each level} x keywords '
+        '{reg, bal, csv log, print, report totals / quantity / unresolved} x the command\'s other switches (single element / food, old and left-aligned layouts, totals-only, collapse modes, --desc) x flag position {global, sub-command, both with different values, one bound on each level} x keywords '
         '(today, yesterday, last7, last30) against --today, also across daylight-saving switches of the process zone (New York, Berlin, Lord Howe) x summary DATE x TZ {UTC, America/New_York, Pacific/Kiritimati} (in-process zone and the real binary); '
         'metamorphic oracle: output with a period = output on the file with the other days deleted; dates shown by reg / print / csv log / summary = dates of the selected days as written in the log; non-trivial = a bound that falls on a logged day or an unsorted / repeated log; '
         'distinct by (log hash, command, bounds, position, zone)')
 ASSUMPTIONS = ['naturaldate free-text dates are outside the model; the model has no zones (a heading is a UTC midnight), daylight-saving switches are exercised on the implementation by the metamorphic oracle', '--today fixes the current date (a UTC midnight)']
 
 CMDS = [(['reg'], True), (['bal'], True), (['csv', 'log'], True), (['print'], True), (['report', 'totals'], False), (['report', 'quantity'], False), (['report', 'unresolved'], False)]
+# other switches of the same command: the period must select the same days whatever else the command is asked to do
+VARIANTS = {'reg': [{}, {}, {}, {'singleElement': 'calories'}, {'singleElement': 'calories', 'groupFood': True}, {'singleElement': 'calories', 'csv': True}, {'singleFood': 'a'},
+                    {'oldReg': True}, {'template': 'left-aligned'}, {'totalsOnly': True}, {'noTotals': True}, {'shorten': True}],
+            'bal': [{}, {}, {'singleElement': 'calories'}, {'collapse': True}, {'collapseLast': True}, {'singleElement': 'calories', 'collapse': True}],
+            'report quantity': [{}, {'desc': True}]}
 TZS = ['UTC', 'America/New_York', 'Pacific/Kiritimati']
 DAYS = WINDOW[:5]
 # (zone, day of a daylight-saving switch)
@@ -88,8 +93,10 @@ def gen(g, nlogs, tier):
                         gf.pop('end')
                 tz = r.choice(TZS)
                 short = set(x for x in ('g.begin', 'g.end', 's.begin', 's.end') if r.random() < 0.5)
-                a = app(path, f_all, g=gf, s=sf, kind=' '.join(path), tz=tz, short=short, today_date=datetime.date(2021, 1, 28))
-                k = app(path, f_kept, g=base_g, kind=' '.join(path) + ' (deleted)', tz=tz, today_date=datetime.date(2021, 1, 28))
+                extra = r.choice(VARIANTS.get(' '.join(path), [{}]))
+                label = ' '.join(path) + (' [' + '+'.join(extra) + ']' if extra else '')
+                a = app(path, f_all, g=gf, s=dict(sf, **extra), kind=label, tz=tz, short=short, today_date=datetime.date(2021, 1, 28))
+                k = app(path, f_kept, g=base_g, s=dict(extra), kind=label + ' (deleted)', tz=tz, today_date=datetime.date(2021, 1, 28))
                 a.meta.update({'pair': k, 'b': b, 'e': e, 'pos': pos, 'log': log, 'kept_days': kept, 'layout': layout})
                 cases += [a, k]
         # keywords against --today, and summary
